@@ -133,3 +133,52 @@ def _attr_object(d):
 
 
 FACTORIES['attr_object'] = _attr_object
+
+
+class HookModuleSpec:
+    """replay value for the per-module hook functions of deep_lift_shap: builds a real torch module with the
+    given numbers of user hooks and, optionally, a complete / partial earlier DeepLIFT registration"""
+
+    def __init__(self, supported=True, nf=0, np_=0, nb=0, handles=None):
+        self.supported, self.nf, self.np_, self.nb, self.handles = bool(supported), int(nf), int(np_), int(nb), handles
+
+    def build(self):
+        import tangermeme.deep_lift_shap as D
+        m = torch.nn.ReLU() if self.supported else torch.nn.Identity()
+        m._NON_LINEAR_OPS = {torch.nn.ReLU: D._nonlinear}
+        for _ in range(self.nf):
+            m.register_forward_hook(lambda mod, i, o: None)
+        for _ in range(self.np_):
+            m.register_forward_pre_hook(lambda mod, i: None)
+        for _ in range(self.nb):
+            m.register_full_backward_hook(lambda mod, gi, go: None)
+        if self.handles is not None:
+            m.handles = []
+            regs = [lambda: m.register_forward_hook(D._f_hook), lambda: m.register_forward_pre_hook(D._fp_hook),
+                    lambda: m.register_full_backward_hook(D._b_hook)]
+            for k in range(self.handles):
+                m.handles.append(regs[k]())
+        object.__setattr__(m, 'to_json', self.to_json)     # replay files describe the module by this spec
+        return m
+
+    def to_json(self):
+        return {'__factory__': 'hook_module', 'supported': self.supported, 'nf': self.nf, 'np': self.np_, 'nb': self.nb, 'handles': self.handles}
+
+
+FACTORIES['hook_module'] = lambda d: HookModuleSpec(d['supported'], d['nf'], d['np'], d['nb'], d['handles']).build()
+
+
+def hook_ghost(m):
+    """ghost hook state of a real module (sizes of the dictionaries, DeepLIFT entries among them)"""
+    def is_dls(fn, name):
+        return getattr(fn, '__module__', '') == 'tangermeme.deep_lift_shap' and getattr(fn, '__name__', '') == name
+
+    def count(d, name):
+        n = 0
+        for h in d.values():
+            f = getattr(h, 'hook', h)
+            if is_dls(f, name) or is_dls(getattr(f, 'func', None), name):
+                n += 1
+        return n
+    return {'nf': len(m._forward_hooks), 'np': len(m._forward_pre_hooks), 'nb': len(m._backward_hooks),
+            'dls_f': count(m._forward_hooks, '_f_hook'), 'dls_p': count(m._forward_pre_hooks, '_fp_hook'), 'dls_b': count(m._backward_hooks, '_b_hook')}
